@@ -142,11 +142,11 @@ void vf_guar (void *addr, uint32_t o, uint32_t n) {
 			g_mode = M_W;
 		} else if (dropped_w) {
 			vf_assert (g_mode == M_W);                                 /* C01: writer bit removed only by the writer */
-			vf_assert (rn == 0);
+			vf_assert (rn == 0 || (rn == 1 && ro == 0));               /* ... which may downgrade itself to a single reader in the same write */
 			/* C06: a writer that releases WITHOUT scanning the waiters' conditions (fast path: it neither holds nor takes the queue spinlock)
 			   must clear MU_ALL_FALSE, because its section may have made conditions true; after a scan the bit reflects that scan */
 			if (writer_release_expect_clear && !g_spin && (n & MU_SPINLOCK) == 0) { vf_assert ((n & MU_ALL_FALSE) == 0); }
-			g_mode = M_NONE;
+			g_mode = (rn == 1) ? M_R : M_NONE;
 		} else if (rn == ro + 1) {
 			vf_assert ((o & MU_WLOCK) == 0 && g_mode == M_NONE);       /* C01: reader count +1 only without writer, by a thread holding nothing */
 			g_mode = M_R; acquired = 1;
